@@ -3,10 +3,17 @@
 package main
 
 import (
+	"strconv"
+
 	"verif/checks/c06"
 	"verif/internal/ev"
 )
 
 func init() {
 	registry["C06I"] = checkFn{"model_checking", func(r *ev.Run, _ string) { c06.RunInter(r) }}
+	workers["C06I"] = func(a []string) {
+		i, _ := strconv.Atoi(a[1])
+		n, _ := strconv.Atoi(a[2])
+		c06.InterWorker(a[0], i, n)
+	}
 }
